@@ -46,6 +46,30 @@ def _write(self, mediator):
 DumpingOutputHandler.write = _write
 
 
+def strip_list(value, tag):
+    return ", ".join(x.strip() for x in value.replace("\n", " ").split(",") if x.strip() and x.strip() != tag)
+
+
+def shipped_dumping(config, interval, name):
+    """A configuration that SHIPS with a dumping tagger (power_bounded_dump.ini): its own [Dumping] lists are used as
+    they are in the tree; with interval None the dumping tagger is removed from the configuration instead."""
+    if interval is not None:
+        config.set("FixedIntervalDumpingEventHandler", "dumping_interval", str(interval))
+        config.set("DumpingOutputHandler", "filename", name)
+        return
+    tags = [x.strip() for x in config.get("TagActivator", "taggers").replace("\n", " ").split(",") if x.strip()]
+    config.set("TagActivator", "taggers", ", ".join(t for t in tags if not t.startswith("dumping ")
+                                                    and t != "dumping"))
+    for sec in config.sections():
+        for opt in ("create", "trash", "activate", "deactivate"):
+            if config.has_option(sec, opt):
+                config.set(sec, opt, strip_list(config.get(sec, opt), "dumping"))
+    for sec in ("Dumping", "FixedIntervalDumpingEventHandler", "DumpingOutputHandler"):
+        config.remove_section(sec)
+    config.set("InputOutputHandler", "output_handlers",
+               strip_list(config.get("InputOutputHandler", "output_handlers"), "dumping_output_handler"))
+
+
 def add_dumping(config, interval, name):
     tag = config.get("TagActivator", "taggers")
     config.set("TagActivator", "taggers", tag.rstrip().rstrip(",") + ",\n    dumping (no_in_state_tagger)")
@@ -73,7 +97,9 @@ def read_config(config_file):
             config.add_section(sec)
         for k, v in kv.items():
             config.set(sec, k, str(v))
-    if p.get("dump_interval") is not None:
+    if config.has_section("Dumping"):
+        shipped_dumping(config, p.get("dump_interval"), p.get("dump_name"))
+    elif p.get("dump_interval") is not None:
         add_dumping(config, p["dump_interval"], p["dump_name"])
     return config
 
